@@ -237,11 +237,11 @@ func run(c *kernel.Ctx) {
 	if r.tmpl {
 		r.sample["kind"] = kindNames[r.kind]
 		r.sample["child"] = fmt.Sprintf("%+v", struct {
-			SStores                                int
-			Log, Token, Issue, Create, SuicideG    bool
-			SendTo                                 int
-			Fail                                   string
-			CallValue                              uint64
+			SStores                             int
+			Log, Token, Issue, Create, SuicideG bool
+			SendTo                              int
+			Fail                                string
+			CallValue                           uint64
 		}{r.spec.sstores, r.spec.log, r.spec.token, r.spec.issue, r.spec.create, r.spec.suicideG, r.spec.sendTo, failNames[r.spec.fail], r.callVal})
 	}
 	for _, ro := range []int{roleParent, roleChild, roleGrand} {
